@@ -42,6 +42,7 @@ def c13_family(tier, sd=0):
     add([("opt", ("u", 8)), ("opt", ("i", 32)), ("u", 8)])
     add([("u", 8), ("str",), ("i", 8)])
     add([("a", 2, ("u", 8)), ("b", 0, ("i", 16)), ("c", 1, ("u", 8))])          # ids not in declaration order
+    add([("x", 1, ("u", 8)), ("y", 256, ("i", 16)), ("z", 65537, ("u", 8))])   # ids that change order if narrowed to 8 or 16 bits
     add([("f32",), ("u", 8), ("f64",)])
     add([("dyn", ("struct", "In")), ("u", 8)], structs=[In8])
     # sub-byte widths and offsets
